@@ -9,7 +9,9 @@ CLAIMED = json.load(open(os.path.join(VERIF, 'harness', 'claimed.json')))
 LEVEL_NOTE = ('Trusted: Coq 8.16.1 kernel; no axioms (Print Assumptions must say "Closed under the global context"); '
               'the hand-written Coq model of /repo/src, tied to the code by the token-for-token correspondence check on the '
               'corpus of every run (not proved equal); Sem.v as a description of Rust; extraction (ExtrOcamlBasic only) and '
-              'the OCaml/Rust/Python harness; syn/quote/proc-macro2 and rustc are outside the model. ')
+              'the OCaml/Rust/Python harness; syn/quote/proc-macro2, the two proc_macro entry wrappers and rustc are outside the model and are '
+              'reached only through real-rustc probes (behaviour, diagnostics, trait solver, hostile scope; Miri and coqchk in the thorough tier), '
+              'which validate the model and search for failing inputs but prove nothing. ')
 
 checks = []
 for pid in sorted(PROPS):
@@ -42,6 +44,6 @@ manifest = dict(
                   kind_free_text='Coq 8.16 development (model + theorems), extracted evaluator, Rust driver over a scratch copy of the macro sources')],
     checks=checks,
     not_applicable=na,
-    notes='fix: commits in /repo repaired four genuine defects (see known_findings.json and DESIGN.md section 5).')
+    notes='fix: commits in /repo repaired five genuine defects, five more are recorded as known findings (known_findings.json, DESIGN.md section 10.4). DESIGN.md section 10 describes the machinery as built.')
 json.dump(manifest, open(os.path.join(VERIF, 'MANIFEST.json'), 'w'), indent=1)
 print('MANIFEST.json written: %d checks, %d not claimed' % (len(checks), len(na)))
